@@ -27,7 +27,7 @@ ASSUMED = [
     {"what": "chumsky Simple error: span() gives byte offsets start <= end <= byte length of the input (chumsky's contract for &str input)",
      "keys": ["struct SimpleErr", "fn span", "struct ByteSpan", "spec fn bstart", "spec fn bend", "fn start", "fn end"]},
     {"what": "error construction (Error::new(Reason::Unexpected), with_span, with_source, format!) is make_lexer_error / fmt_*: the span given is the span stored",
-     "keys": ["fn make_lexer_error", "fn fmt_found", "fn fmt_error_source", "fn string_is_empty", "fn to_string_lit", "spec fn espan"]},
+     "keys": ["fn str_byte_slice", "fn str_char_count", "fn make_lexer_error", "fn fmt_found", "fn fmt_error_source", "fn string_is_empty", "fn to_string_lit", "spec fn espan"]},
     {"what": "ariadne Source::get_offset_line(offset) is the uninterpreted offset_line(): Some((line, line index, column)) iff the CHARACTER offset lies in the source "
              "(read in ariadne 0.5.1 source.rs)", "keys": ["struct Source", "spec fn offset_line", "fn get_offset_line", "struct Line"]},
     {"what": "token spans handed to the parser are BYTE ranges of the source (comment in lexer/mod.rs: 'SimpleSpan uses BYTE offsets'); semantic_tokens.get(i) is "
@@ -67,6 +67,12 @@ pub fn chars_before(source: &str, byte_off: usize) -> (r: usize)
 #[verifier::external_body]
 pub fn chars_slice(source: &str, skip: usize, take: usize) -> String { unimplemented!() }
 #[verifier::external_body]
+pub fn str_byte_slice<'a>(source: &'a str, a: usize, b: usize) -> (r: &'a str)
+    requires a <= b <= byte_len(source@),
+    ensures char_len(r@) == chars_before_spec(source@, b as nat) - chars_before_spec(source@, a as nat),
+{ unimplemented!() }
+#[verifier::external_body] pub fn str_char_count(s: &str) -> (r: usize) ensures r == char_len(s@), { unimplemented!() }
+#[verifier::external_body]
 pub fn str_byte_len(source: &str) -> (r: usize) ensures r == byte_len(source@), { unimplemented!() }
 
 // ---------------------------------------------------------------- chumsky error shim
@@ -88,9 +94,9 @@ pub type E = OpaqueT;
 pub uninterp spec fn espan(e: E) -> Option<Span>;
 #[verifier::external_body]
 pub fn make_lexer_error(found_display: String, span: Option<Span>, error_source: String) -> (r: E) ensures espan(r) == span, { unimplemented!() }
-#[verifier::external_body] pub fn string_is_empty(s: &String) -> bool { unimplemented!() }
+#[verifier::external_body] pub fn string_is_empty<T: ?Sized>(s: &T) -> bool { unimplemented!() }
 #[verifier::external_body] pub fn to_string_lit(s: &str) -> String { unimplemented!() }
-#[verifier::external_body] pub fn fmt_found(found: &String) -> String { unimplemented!() }
+#[verifier::external_body] pub fn fmt_found<T: ?Sized>(found: &T) -> String { unimplemented!() }
 #[verifier::external_body] pub fn fmt_error_source(found_display: &String, a: usize, b: usize) -> String { unimplemented!() }
 """
 
@@ -138,8 +144,10 @@ def build(X):
                    why="prefix character count (str slicing + chars().count())")
     cle.rewrite_re("R5", r"let found: String = source\s*\.chars\(\)\s*\.skip\(([^()]*)\)\s*\.take\(([^()]*)\)\s*\.collect\(\);",
                    r"let found: String = chars_slice(source, \1, \2);", count=None, why="character-based slicing of the source")
+    cle.rewrite_re("R5", r"&source\[(\w+)\.\.(\w+)\]", r"str_byte_slice(source, \1, \2)", count=None, why="str slicing by a byte range")
+    cle.rewrite_re("R5", r"\b(\w+)\.chars\(\)\.count\(\)", r"str_char_count(\1)", count=None, why="number of characters of a str")
     cle.rewrite_re("R5", r"\bsource\.len\(\)", "str_byte_len(source)", count=None, why="str::len is the BYTE length")
-    cle.rewrite("R5", "found.is_empty()", "string_is_empty(&found)", count=None, why="String::is_empty")
+    cle.rewrite_re("R5", r"\bfound\.is_empty\(\)", "string_is_empty(&found)", count=None, why="String::is_empty")
     cle.rewrite("R5", '"end of input".to_string()', 'to_string_lit("end of input")', count=None, why="to_string")
     cle.rewrite_re("R5", r"format!\(\"'\{\}'\", found\)", "fmt_found(&found)", count=None, why="format!")
     cle.rewrite_re("R5", r"format!\(\s*\"Unexpected \{\} at position \{\}\.\.\{\}\",\s*found_display, (\w+), (\w+)\s*\)", r"fmt_error_source(&found_display, \1, \2)",
@@ -209,9 +217,14 @@ def _try(src):
 
 
 def replay(failure):
-    """SU2: a syntax error after non-ASCII text; the parser's byte span exceeds the character count of the source."""
+    """SU2: a syntax error after non-ASCII text; the parser's byte span exceeds the character count of the source.
+    SU3*: a LEXER error after non-ASCII text (the span must be in characters)."""
     if not failure["obligation"].endswith("SU2"):
-        return None
+        for src in ['from t\nfilter name == "héllo wörld"\nselect x = ^', 'from t # ééééééééé\nselect x = ^ + 1\nsort x', "from t\nselect x = '日本語' + ^"]:
+            r = _try(src)
+            if r["failing"]:
+                return r
+        return {"failing": False}
     for src in ["from a # café 日本語テーブル\nselect {", "let x = \"éééééééé\"\nfrom t | select {a,"]:
         r = _try(src)
         if r["failing"]:
